@@ -28,6 +28,7 @@ pub fn run_forked(f: impl FnOnce() -> String, timeout: Duration) -> ChildEnd {
         }
         if pid == 0 {
             // child: fd 1 becomes the pipe, so the fatal-signal handler reports to our parent
+            libc::prctl(libc::PR_SET_PDEATHSIG, libc::SIGKILL);
             libc::close(fds[0]);
             libc::dup2(fds[1], 1);
             libc::close(fds[1]);
